@@ -37,9 +37,9 @@ class Gen:
         self.bid = self.bid % 15000 + 1
         return self.bid
 
-    def case(self, prop, suite, lines, rs=0):
+    def case(self, prop, suite, lines, rs=0, lit=None):
         self.n += 1
-        self.cases.append((self.n, prop, suite, ['X id=%d prop=%s%s%s' % (self.n, prop, ' rs=1' if rs else '', ' lit=1' if prop == 'C03' else '')] + lines + ['E']))
+        self.cases.append((self.n, prop, suite, ['X id=%d prop=%s%s%s' % (self.n, prop, ' rs=1' if rs else '', ' lit=1' if (prop == 'C03' if lit is None else lit) else '')] + lines + ['E']))
 
 
 def size_of(toklen, opts, plen):
@@ -272,6 +272,13 @@ def suite_c03(g, tier, rnd):
         for ln in sorted(set(x for x in (lo - 1, lo, hi, hi + 1) if x >= 0)):
             g.case('C03', 'c03.option-length-table', ['new 0 1 1 0', 'tok 1 %d' % g.blob(), 'opt %d %d %d' % (num, ln, g.blob()),
                                                     'sweep udp app'])
+    # option lengths that need more than 16 bits (65536..65804 can be encoded): a length check done on a truncated value would let
+    # an over-long value of a length-limited option through
+    for num, (lo, hi) in sorted(LIM.items()):
+        if hi >= 3000:
+            continue
+        for ln in sorted(set((65536 + lo, 65536 + min(hi, 268), 65804))):
+            g.case('C03', 'c03.option-length-beyond-16-bits', ['new 0 1 1 70000', 'tok 1 %d' % g.blob(), 'opt %d %d %d' % (num, ln, g.blob()), 'sweep tcp same', 'sweep udp same'], lit=0)
     # blind random strings
     n = 40 if tier == 'quick' else 2000
     for i in range(n):
